@@ -692,10 +692,14 @@ def extract_fn(gen, f, probe=False):
       raise VxError("anchor lost: region %s start /%s/ not found in %s::%s" % (f.region_name, f.start, f.file, f.name))
     ms = hits[f.start_occ]
     me = None
-    for m in re.compile(f.end).finditer(src.text, ms.end(), bc):
-      if src.mask[m.start()] == src.text[m.start()]:
-        me = m
-        break
+    if f.end == "@fn_end":
+      # the region runs to the end of the function body: [line of start match, line of the body's closing brace)
+      me = re.compile(r"\}").match(src.text, bc)
+    else:
+      for m in re.compile(f.end).finditer(src.text, ms.end(), bc):
+        if src.mask[m.start()] == src.text[m.start()]:
+          me = m
+          break
     if not me:
       raise VxError("anchor lost: region %s end /%s/ not found in %s::%s" % (f.region_name, f.end, f.file, f.name))
     if f.expr:
@@ -817,6 +821,28 @@ def extract_fn(gen, f, probe=False):
       ins += _clause_lines(gen, spec["ensures"], qual, "loop_ensures", "        ")
     if spec.get("decreases"):
       ins.append(("\n      decreases %s\n" % spec["decreases"], gen.tag({"kind": "kw", "fn": qual})))
+    if kw == "for" and spec.get("desugar_owned"):
+      # R9o: `for X in VEC { B }` over an OWNED Vec (elements are moved out one by one)  ==>
+      #      { let mut vx_vN = VEC; let ghost vx_oN = vx_vN@; let mut vx_iN: usize = 0;
+      #        while vx_vN.len() > 0 { let X = vx_vN.remove(0); vx_iN += 1; B } }      with vx_vN@ == vx_oN.skip(vx_iN)
+      hdr = body.s[st:brace]
+      m = re.match(r"for\s+(\w+)\s+in\s+([\w\.]+)\s*$", hdr, re.S)
+      if not m:
+        raise VxError("for-loop #%d header of %s::%s is not `for x in vec`: %r (anchor lost)" % (ordn, f.file, f.name, hdr))
+      xv, cont = m.group(1), m.group(2)
+      gen.drops.append({"rule": "R9o", "at": "%s:%s" % (where, body.o[st]), "what": "for %s in %s (owned Vec) -> while loop taking the elements from the front in order (vx_v%d/vx_i%d)" % (xv, cont, ordn, ordn)})
+      o0 = body.o[st]
+      cl = match_close(mask, brace)
+      add_op(st, brace, "{ let mut vx_v%d = %s; let ghost vx_o%d = vx_v%d@; let mut vx_i%d: usize = 0; let _ = vx_v%d.len();\n while vx_v%d.len() > 0 " % (ordn, cont, ordn, ordn, ordn, ordn, ordn), o0)
+      ins2 = [("\n      invariant\n        vx_i%d + vx_v%d@.len() == vx_o%d.len(), vx_o%d.len() <= usize::MAX, vx_v%d@ =~= vx_o%d.skip(vx_i%d as int), vx_o%d == %s@,\n" % (ordn, ordn, ordn, ordn, ordn, ordn, ordn, ordn, cont), gen.tag({"kind": "kw", "fn": qual}))]
+      if spec.get("invariant"):
+        ins2 += _clause_lines(gen, spec["invariant"], qual, "invariant", "        ")
+      ins2.append(("\n      decreases vx_v%d@.len()\n" % ordn, gen.tag({"kind": "kw", "fn": qual})))
+      for text, t in ins2:
+        add_op(brace, brace, text, t)
+      add_op(brace + 1, brace + 1, " let %s = vx_v%d.remove(0); vx_i%d += 1;\n" % (xv, ordn, ordn), o0)
+      add_op(cl + 1, cl + 1, " }", o0)
+      continue
     if kw == "for" and spec.get("desugar_enum"):
       # R9e: `for (I, X) in C.iter_mut().enumerate() { B }`  ==>  indexed while loop over the same container; inside B the element
       #      binding X is spelled C[I] (reads through Index; `C[I].set_flags(e);` is the IndexMut call R6 turns into C.verif_set_flags(I, e)):
